@@ -188,6 +188,12 @@ func (enc Encryptor) EncryptNew(pt *Plaintext) (ct *Ciphertext, err error) {
 // encryption of zero is sampled in QP before being rescaled by P; otherwise, it is directly sampled in Q.
 // The zero encryption is generated according to the given [Ciphertext] [MetaData].
 func (enc Encryptor) EncryptZero(ct interface{}) (err error) {
+	if cti, isCt := ct.(*Ciphertext); isCt {
+		// Components of degree 2 and above are not part of a fresh encryption.
+		for i := 2; i <= cti.Degree(); i++ {
+			cti.Value[i].Zero()
+		}
+	}
 	switch key := enc.encKey.(type) {
 	case *SecretKey:
 		return enc.encryptZeroSk(key, ct)
@@ -358,7 +364,7 @@ func (enc Encryptor) encryptZeroSk(sk *SecretKey, ct interface{}) (err error) {
 	case *Ciphertext:
 
 		var c1 ring.Poly
-		if ct.Degree() == 1 {
+		if ct.Degree() >= 1 {
 			c1 = ct.Value[1]
 		} else {
 			c1 = enc.buffQP[1].Q
@@ -413,7 +419,7 @@ func (enc Encryptor) encryptZeroSkFromC1(sk *SecretKey, ct Element[ring.Poly], c
 		ringQ.Add(c0, e, c0)
 	} else {
 		ringQ.INTT(c0, c0)
-		if ct.Degree() == 1 {
+		if ct.Degree() >= 1 {
 			ringQ.INTT(c1, c1)
 		}
 
